@@ -118,12 +118,15 @@ CHECKS["C17"] = dict(
     text="Proved on the grid specs: transposing twice is the identity on the matrix (rows completed to the common width) for every non-empty table; "
     "rstrip is idempotent, keeps every non-empty value at its coordinates and removes only trailing all-empty rows / trailing empty cells; a span leaves "
     "values untouched and changes nothing outside the area, refuses to overlap an existing span, and set_span followed by del_span restores the table for "
-    "every area inside it. Correspondence: Table.rstrip / transpose / set_span / del_span vs the Lean models (run structure, grid, span attributes), "
-    "the run-length model of rstrip vs its grid spec on every case. Oracle only: optimize_width (same three laws), compositions, CSV round trip.",
-    note=TABLE_NOTE + "The refinement of the run-length rstrip model to its grid spec is checked case by case in the driver, not proved. Matrices are "
+    "every area inside it. Proved on the code-level model: Table.rstrip on run-length XML (trailing empty row ELEMENTS deleted, trailing empty cell ELEMENTS "
+    "of every row deleted, declared columns trimmed from the end) denotes the grid spec on EVERY coherent run-length state and leaves a coherent state "
+    "(rstrip_refines), so idempotence and value preservation hold of the run-length model too (rstrip_table_idempotent, rstrip_table_keeps). "
+    "Correspondence: Table.rstrip / transpose / set_span / del_span vs the Lean models (run structure, grid, span attributes). Oracle only: optimize_width "
+    "(same three laws), compositions, merged cells as office applications store them (covered cells in repeated runs) under rstrip / optimize_width, CSV round trip.",
+    note=TABLE_NOTE + "transpose is modelled at the grid level (the code works on the expanded cells). Matrices are "
     "compared modulo trailing empty rows/columns for transpose (a column declared beyond the widest row holds no content). CSV: known finding C17-F3 "
     "(value classes CSV cannot carry; csv.Sniffer) is reported at every run.",
-    technique="Lean 4 algebraic laws on the spec (idempotence, involution, inverse) + differential correspondence + oracles",
+    technique="Lean 4 algebraic laws on the spec (idempotence, involution, inverse) + refinement proof of the run-length rstrip to the spec + differential correspondence + oracles",
     design="5/C17",
 )
 
